@@ -24,7 +24,7 @@ use lightning::events::Event;
 use lightning::ln::chan_utils::CommitmentTransaction;
 use lightning::ln::functional_test_utils::*;
 use lightning::ln::msgs::BaseMessageHandler;
-use lightning::ln::splicing_tests::{do_initiate_splice_in, initiate_splice_out, lock_splice_after_blocks, splice_channel};
+use lightning::ln::splicing_tests::{complete_interactive_funding_negotiation, complete_rbf_handshake, do_initiate_rbf_splice_in, do_initiate_splice_in, initiate_splice_out, lock_rbf_splice_after_blocks, lock_splice_after_blocks, sign_interactive_funding_tx, splice_channel, SignInteractiveFundingTxArgs};
 use lightning::ln::types::ChannelId;
 use lightning::ln::verif_hooks as vh;
 use lightning::util::wallet_utils::WalletSourceSync;
@@ -125,7 +125,7 @@ pub fn scenario(seed: u64, index: u64) -> Result<Out, String> {
 	let chanmon_cfgs = leak(create_chanmon_cfgs(2));
 	let node_cfgs = leak(create_node_cfgs(2, chanmon_cfgs));
 	let node_chanmgrs = leak(create_node_chanmgrs(2, node_cfgs, &[None, None]));
-	let nodes = create_network(2, node_cfgs, node_chanmgrs);
+	let mut nodes = create_network(2, node_cfgs, node_chanmgrs);
 	let (victim, cheater) = (0usize, 1usize);
 	// ---- plan (the first scenarios are aimed: the HTLC value lies between a balance before and after the splice) ------------------
 	let cap: u64 = 100_000 * rng.range(1, 4);
@@ -141,12 +141,19 @@ pub fn scenario(seed: u64, index: u64) -> Result<Out, String> {
 	let mut inflight: [u64; 2] = [htlc_sat, 0];
 	let splice_out = !aimed && rng.chance(1, 3) && avail[splicer] >= 22_000;
 	if splice_out { avail[splicer] -= 12_000; }
-	let lock = index % 4 != 3;
+	// 0: the splice confirms and LOCKS; 1: it stays unconfirmed (revoked commitment on the original funding); 2: it CONFIRMS but is NOT locked
+	// (`alternative_funding_confirmed`: the revoked commitment spends the splice, punishment uses the PENDING scope's data)
+	let mode: u8 = match index % 4 { 3 => 1, 2 => 2, _ => 0 };
+	let lock = mode == 0;
+	// the victim is restarted (manager + monitor written and read back) after the revoked state was recorded, before the cheat
+	let restart = index % 3 == 1;
+	// an RBF candidate of the splice is negotiated after the HTLCs routed during the first candidate: TWO pending scopes (k = 0, 1); what confirms is the RBF
+	let rbf = !splice_out && index % 6 == 4;
 	let n_before = rng.below(3) as usize; let n_during = 1 + rng.below(2) as usize;
 	// the aimed HTLC is routed BEFORE the splice in a fifth of the scenarios: renegotiated_funding then has an index to rewrite that DIFFERS
 	let aimed_before = index % 5 == 1;
 	let plan = format!("[seed {} #{}: capacity {} sat, {} sat pushed to node 1, node {} splices {} (left pending), up to {} HTLC(s) before / {} during the pending splice (the aimed one: {} sat from node 0, routed {} the splice negotiation), splice {} before the revoked commitment confirms]",
-		seed, index, cap, push, splicer, if splice_out { "out 10000 sat" } else { "in 100000 sat" }, n_before, n_during, htlc_sat, if aimed_before { "BEFORE" } else { "after" }, if lock { "confirms and LOCKS" } else { "stays PENDING" });
+		seed, index, cap, push, splicer, if splice_out { "out 10000 sat" } else { "in 100000 sat" }, n_before, n_during, htlc_sat, if aimed_before { "BEFORE" } else { "after" }, format!("{}{}{}", match mode { 0 => "confirms and LOCKS", 1 => "stays UNCONFIRMED", _ => "CONFIRMS but is NOT locked" }, if restart { "; victim RESTARTED before the cheat" } else { "" }, if rbf { "; an RBF candidate of the splice is negotiated too (two pending scopes), the RBF is what confirms" } else { "" }));
 	if std::env::var("C06_DEBUG").is_ok() { eprintln!("{}", plan); }
 	let (_, _, chan, funding_tx) = create_announced_chan_between_nodes_with_value(&nodes, 0, 1, cap, push * 1000);
 	let first_funding = funding_tx.compute_txid();
@@ -163,7 +170,7 @@ pub fn scenario(seed: u64, index: u64) -> Result<Out, String> {
 		let outputs = vec![TxOut { value: Amount::from_sat(10_000), script_pubkey: ini.wallet_source.get_change_script().unwrap() }];
 		initiate_splice_out(ini, acc, chan, outputs).map_err(|e| format!("splice_out {:?}", e))?
 	} else { do_initiate_splice_in(ini, acc, chan, Amount::from_sat(100_000)) };
-	let (splice_tx, _) = splice_channel(ini, acc, chan, contribution);
+	let (splice_tx, new_funding_script) = splice_channel(ini, acc, chan, contribution);
 	let splice_funding = splice_tx.compute_txid();
 	PHASE.with(|c| c.set(1));
 	// ---- HTLCs while it is pending ---------------------------------------------------------------------------------------------------
@@ -183,36 +190,93 @@ pub fn scenario(seed: u64, index: u64) -> Result<Out, String> {
 		out.lines.push(("sdump".into(), Some(ans), "scope:dump-while-splice-pending".into()));
 		out.oracle.extend(fails);
 	}
+	let first_candidate = splice_tx.clone();
+	let (splice_tx, splice_funding) = if rbf {
+		PHASE.with(|c| c.set(0));
+		provide_utxo_reserves(&nodes, 2, Amount::ONE_BTC);
+		let feerate = bitcoin::FeeRate::from_sat_per_kwu(253 + 25 + rng.below(200));
+		let (ini, acc) = (&nodes[splicer], &nodes[1 - splicer]);
+		let contribution = do_initiate_rbf_splice_in(ini, acc, chan, feerate);
+		complete_rbf_handshake(ini, acc);
+		complete_interactive_funding_negotiation(ini, acc, chan, contribution, new_funding_script.clone());
+		let (rbf_tx, _) = sign_interactive_funding_tx(SignInteractiveFundingTxArgs::new(ini, acc).replacing(first_candidate.compute_txid()));
+		expect_splice_pending_event(ini, &acc.node.get_our_node_id());
+		let _ = acc.node.get_and_clear_pending_events();
+		PHASE.with(|c| c.set(1));
+		// one more HTLC with THREE versions of every commitment (if the limits allow)
+		let a = rng.below(2) as usize; let amt = rng.range(1_500, 4_000);
+		if avail[a] >= amt + 8_000 && inflight[a] + amt + 1_000 <= cap / 4 { avail[a] -= amt; inflight[a] += amt; let r = route_payment(&nodes[a], &[&nodes[1 - a]], amt * 1000); during.push((a, r.0, r.1)); }
+		let id = rbf_tx.compute_txid();
+		rp.poll(&nodes[victim], chan, first_funding, Some(id), &mut it)?;
+		let (ans, fails) = dump(&nodes[victim], chan, &mut it, &rp.seen, &plan)?;
+		for o in rp.ops.drain(..) { out.lines.push((o, None, String::new())); }
+		out.lines.push(("sdump".into(), Some(ans), "scope:dump-with-two-pending-scopes(rbf)".into()));
+		out.oracle.extend(fails);
+		(rbf_tx, id)
+	} else { (splice_tx, splice_funding) };
 	if lock {
-		mine_transaction(&nodes[0], &splice_tx); mine_transaction(&nodes[1], &splice_tx);
-		lock_splice_after_blocks(&nodes[splicer], &nodes[1 - splicer], ANTI_REORG_DELAY - 1);
+		if rbf { lock_rbf_splice_after_blocks(&nodes[splicer], &nodes[1 - splicer], &splice_tx, ANTI_REORG_DELAY - 1, &[first_candidate.compute_txid()]); }
+		else {
+			mine_transaction(&nodes[0], &splice_tx); mine_transaction(&nodes[1], &splice_tx);
+			lock_splice_after_blocks(&nodes[splicer], &nodes[1 - splicer], ANTI_REORG_DELAY - 1);
+		}
 		rp.poll(&nodes[victim], chan, first_funding, Some(splice_funding), &mut it)?;
 	}
+	if mode == 2 {
+		mine_transaction(&nodes[0], &splice_tx); mine_transaction(&nodes[1], &splice_tx);
+		let extra = rng.below(3) as u32; if extra > 0 { connect_blocks(&nodes[0], extra); connect_blocks(&nodes[1], extra); }
+		rp.poll(&nodes[victim], chan, first_funding, Some(splice_funding), &mut it)?;
+	}
+	let on_splice = mode != 1;
 	// ---- the cheater's commitment (on the locked funding: the splice if it locked, the original one otherwise) -----------------------
 	let preimages: Vec<_> = pre.iter().chain(during.iter()).chain(aimed_pay.iter()).map(|(_, p, h)| (*h, *p)).collect();
 	let (revoked_tx, htlc_outs): (Transaction, BTreeSet<u32>) = {
 		let mon = nodes[cheater].chain_monitor.chain_monitor.get_monitor(chan).map_err(|_| "no cheater monitor")?;
-		let txs = mon.unsafe_get_latest_holder_commitment_txn(&nodes[cheater].logger);
-		let id = txs[0].compute_txid();
-		let hs = mon.verif_holder_htlc_descriptors(&preimages).iter().map(|d| d.outpoint()).filter(|o| o.txid == id).map(|o| o.vout).collect();
-		(txs[0].clone(), hs)
+		if mode == 2 {
+			// the PENDING scope's version of the cheater's commitment (hook; unsafe_get_latest_holder_commitment_txn signs the locked funding's only)
+			let (tx, hs) = mon.verif_unsafe_holder_commitment_for_funding(splice_funding).ok_or("cheater has no commitment for the pending splice")?;
+			(tx, hs.into_iter().collect())
+		} else {
+			let txs = mon.unsafe_get_latest_holder_commitment_txn(&nodes[cheater].logger);
+			let id = txs[0].compute_txid();
+			let hs = mon.verif_holder_htlc_descriptors(&preimages).iter().map(|d| d.outpoint()).filter(|o| o.txid == id).map(|o| o.vout).collect();
+			(txs[0].clone(), hs)
+		}
 	};
 	let revoked_txid = revoked_tx.compute_txid();
 	let spent_funding = revoked_tx.input[0].previous_output.txid;
-	if spent_funding != if lock { splice_funding } else { first_funding } { return Err("captured commitment spends an unexpected funding".into()); }
+	if spent_funding != if on_splice { splice_funding } else { first_funding } { return Err("captured commitment spends an unexpected funding".into()); }
 	// ---- revoke it: settle the aimed HTLC ---------------------------------------------------------------------------------------------
 	let (a, p, _) = aimed_pay.ok_or("no aimed HTLC")?;
 	claim_payment(&nodes[a], &[&nodes[1 - a]], p);
 	// ---- model: all updates, the final data, the claims on the confirmed commitment ---------------------------------------------------
 	rp.poll(&nodes[victim], chan, first_funding, Some(splice_funding), &mut it)?;
 	let seen = rp.seen.clone();
+	if restart {	// a real restart of the victim: manager and monitor written, dropped, read back (peers disconnected)
+		use lightning::util::ser::Writeable;
+		let mgr = nodes[victim].node.encode();
+		let mon_bytes = nodes[victim].chain_monitor.chain_monitor.get_monitor(chan).map_err(|_| "no victim monitor")?.encode();
+		nodes[cheater].node.peer_disconnected(nodes[victim].node.get_our_node_id());
+		let config = nodes[victim].node.get_current_config();
+		let persister: &'static lightning::util::test_utils::TestPersister = leak(lightning::util::test_utils::TestPersister::new());
+		let node = &mut nodes[victim];
+		let new_chain_monitor: &'static lightning::util::test_utils::TestChainMonitor<'static> = leak(lightning::util::test_utils::TestChainMonitor::new(
+			Some(node.chain_source), node.tx_broadcaster, node.logger, node.fee_estimator, persister, node.keys_manager));
+		node.chain_monitor = new_chain_monitor;
+		let new_mgr = leak(_reload_node(node, config, &mgr, &[&mon_bytes[..]], None));
+		node.node = new_mgr;
+		node.onion_messenger.set_offers_handler(new_mgr);
+		node.onion_messenger.set_async_payments_handler(new_mgr);
+		node.chain_monitor.added_monitors.lock().unwrap().clear();
+		out.classes.push(format!("scope:victim-restarted-before-the-cheat:mode{}", mode));
+	}
 	let (ans, fails) = dump(&nodes[victim], chan, &mut it, &seen, &plan)?;
 	for o in rp.ops.drain(..) { out.lines.push((o, None, String::new())); }
-	out.lines.push(("sdump".into(), Some(ans), format!("scope:dump-before-confirmation:{}", if lock { "locked" } else { "pending" })));
+	out.lines.push(("sdump".into(), Some(ans), format!("scope:dump-before-confirmation:{}", match mode { 0 => "locked", 1 => "pending", _ => "confirmed-not-locked" })));
 	out.oracle.extend(fails);
 	let stored = seen.get(&(spent_funding, revoked_txid)).cloned().ok_or("captured commitment unknown to the victim's monitor")?;
 	let moved = { let other = seen.iter().find(|((f, _), l)| *f != spent_funding && l.len() == stored.len() && l.iter().zip(stored.iter()).all(|(x, y)| (x.0, x.1, x.2) == (y.0, y.1, y.2)) && **l != stored); other.is_some() };
-	out.classes.push(format!("scope:revoked-commitment-on-{}-funding:htlc-index-{}-between-the-two-versions", if lock { "splice" } else { "original" }, if moved { "DIFFERS" } else { "same" }));
+	out.classes.push(format!("scope:revoked-commitment-on-{}-funding:htlc-index-{}-between-the-two-versions", match (mode, rbf) { (0, false) => "splice", (0, true) => "rbf-splice", (1, false) => "original", (1, true) => "original(two-pending)", (_, false) => "CONFIRMED-UNLOCKED-splice", (_, true) => "CONFIRMED-UNLOCKED-rbf-splice(pending scope 1)" }, if moved { "DIFFERS" } else { "same" }));
 	// ---- the cheater confirms it ----------------------------------------------------------------------------------------------------
 	nodes[victim].tx_broadcaster.txn_broadcasted.lock().unwrap().clear();
 	mine_transaction(&nodes[victim], &revoked_tx);
@@ -228,7 +292,7 @@ pub fn scenario(seed: u64, index: u64) -> Result<Out, String> {
 	}
 	let outs_desc = revoked_tx.output.iter().enumerate().map(|(i, o)| format!("{}:{}{}", i, o.value.to_sat(), if htlc_outs.contains(&(i as u32)) { "(HTLC)" } else { "" })).collect::<Vec<_>>().join(" ");
 	for v in htlc_outs.iter() { if !claimed.contains(v) {
-		out.oracle.push(format!("HTLC output {} of the revoked counterparty commitment {} (signed while the splice was pending, spends the {} funding; outputs {}) is NOT spent by any justice transaction (claimed outputs: {:?}; that commitment's own non-dust HTLCs: [{}]) {}", v, revoked_txid, if lock { "splice" } else { "original" }, outs_desc, claimed, dash(stored.iter().map(htok).collect(), ","), plan)); } }
+		out.oracle.push(format!("HTLC output {} of the revoked counterparty commitment {} (signed while the splice was pending, spends the {} funding; outputs {}) is NOT spent by any justice transaction (claimed outputs: {:?}; that commitment's own non-dust HTLCs: [{}]) {}", v, revoked_txid, match mode { 0 => "locked splice", 1 => "original", _ => "confirmed-but-unlocked splice" }, outs_desc, claimed, dash(stored.iter().map(htok).collect(), ","), plan)); } }
 	if claimed.iter().filter(|v| !htlc_outs.contains(v)).count() != 1 { out.oracle.push(format!("expected exactly one claimed non-HTLC output (to_local) of revoked commitment {}, claimed {:?} HTLC outputs {:?} {}", revoked_txid, claimed, htlc_outs, plan)); }
 	let model_claims: Vec<String> = claimed.iter().filter(|v| htlc_outs.contains(v)).map(|v| v.to_string()).collect();
 	out.lines.push((format!("sconfirm {} {} {}", it.id(&spent_funding), it.id(&revoked_txid), revoked_tx.output.iter().map(|o| o.value.to_sat().to_string()).collect::<Vec<_>>().join(",")), Some(dash(model_claims, ",")), format!("scope:confirm:htlcs{}", htlc_outs.len().min(4))));
